@@ -5,6 +5,7 @@ import (
 	"go/constant"
 	"go/types"
 	"golang.org/x/tools/go/ssa"
+	"jsverif/internal/core"
 	"regexp"
 	"sort"
 	"strings"
@@ -207,4 +208,49 @@ func tableGet(tbl map[string]string, key string) (string, bool) {
 		}
 	}
 	return "", false
+}
+
+// helperBodies: the body of a function and the bodies of the functions of the same package it calls
+// (to the given depth). Rules that look for a construct "in F" look here, so that the construct may
+// be moved into a helper (or a helper inlined) without changing the verdict.
+func helperBodies(c *core.Ctx, d *core.DeclSite, depth int) []*core.DeclSite {
+	out := []*core.DeclSite{d}
+	seen := map[*ast.FuncDecl]bool{d.Decl: true}
+	frontier := []*core.DeclSite{d}
+	for i := 0; i < depth; i++ {
+		var next []*core.DeclSite
+		for _, cur := range frontier {
+			if cur.Decl.Body == nil {
+				continue
+			}
+			ast.Inspect(cur.Decl.Body, func(n ast.Node) bool {
+				call, ok := n.(*ast.CallExpr)
+				if !ok {
+					return true
+				}
+				f, ok := core.Callee(cur.Pkg, call).(*types.Func)
+				if !ok || f.Pkg() == nil || f.Pkg().Path() != cur.Pkg.PkgPath {
+					return true
+				}
+				hd := c.P.FindDecl(core.Rel(f.FullName()))
+				if hd == nil || hd.Decl.Body == nil || seen[hd.Decl] {
+					return true
+				}
+				seen[hd.Decl] = true
+				out = append(out, hd)
+				next = append(next, hd)
+				return true
+			})
+		}
+		frontier = next
+	}
+	return out
+}
+
+// inspectDeep walks F and its same-package helpers.
+func inspectDeep(c *core.Ctx, d *core.DeclSite, depth int, f func(hd *core.DeclSite, n ast.Node) bool) {
+	for _, hd := range helperBodies(c, d, depth) {
+		hd := hd
+		ast.Inspect(hd.Decl.Body, func(n ast.Node) bool { return f(hd, n) })
+	}
 }
